@@ -63,7 +63,7 @@ func init() {
 		Run:      runC13,
 		Required: func(string) []string { return []string{"reader/", "lines/accepted", "json-patch/", "corrupt/", "cli/"} },
 		Assume:   []string{"coverage-guided fuzzing of arbitrary byte strings is sampling and is replaced by complete enumeration over small alphabets (DESIGN.md section 0)", "a Go panic is observed through recover(); fatal runtime errors kill the worker and are attributed by the coordinator's trace re-run"},
-		Budget:   budget(6*time.Minute, 45*time.Minute),
+		Budget:   budget(9*time.Minute, 45*time.Minute),
 	})
 }
 
@@ -264,8 +264,46 @@ func corruptionsFor(hs []ref.Hunk) []corruption {
 	return out
 }
 
+// diffs that fail on most targets: every failure path formats the found / wanted values into a message
+var c13Mismatch = []string{"@ []\n- 1\n+ 2\n", "@ [\"a\"]\n- 1\n+ 2\n", "@ [0]\n- 1\n+ 2\n", "@ [1]\n  0\n+ 2\n", "@ [{}]\n- 1\n", "@ [[]]\n- 1\n", "@ [\"a\",{}]\n- 1\n",
+	"@ [{\"id\":1},\"v\"]\n- 1\n+ 2\n", "@ [\"a\",0]\n- 1\n", "@ [0,\"a\"]\n- 1\n", "@ [\"a\",\"b\"]\n- 1\n", "^ {\"Merge\":true}\n@ [\"a\",\"b\"]\n+ 1\n", "@ [0]\n[\n- 1\n]\n", "@ [1]\n  1\n+ 2\n  3\n"}
+
+// first steps that create fresh containers, second steps that write below them
+var c13First = []string{"M{\"a\":{}}", "M{\"a\":[]}", "M{\"a\":{\"b\":{}}}", "M{\"a\":null}", "M{}", "M[]", "D@ [\"a\"]\n+ {}\n", "D@ [\"a\"]\n+ []\n", "D@ []\n- 1\n+ {}\n", "D@ []\n- 1\n+ []\n",
+	"D@ []\n+ {}\n", "D@ []\n+ []\n", "P[{\"op\":\"add\",\"path\":\"/a\",\"value\":{}}]", "P[{\"op\":\"add\",\"path\":\"/a\",\"value\":[]}]", "P[{\"op\":\"add\",\"path\":\"\",\"value\":{}}]", "D@ [0]\n+ {}\n", "D@ [{}]\n+ {}\n", "D@ [[]]\n+ []\n"}
+var c13Second = []string{"M{\"a\":{\"b\":1}}", "M{\"b\":1}", "M{\"a\":{\"b\":{\"c\":1}}}", "D@ [\"a\",\"b\"]\n+ 1\n", "D^ {\"Merge\":true}\n@ [\"a\",\"b\"]\n+ 1\n", "D@ [\"b\"]\n+ 1\n", "D@ [\"a\",0]\n+ 1\n", "D@ [0]\n+ 1\n",
+	"D@ [\"a\",{}]\n+ 1\n", "D@ [\"a\",[]]\n+ 1\n", "D@ [{}]\n+ 1\n", "D@ [0,\"b\"]\n+ 1\n", "D@ [0,0]\n+ 1\n", "P[{\"op\":\"add\",\"path\":\"/a/b\",\"value\":1}]", "P[{\"op\":\"add\",\"path\":\"/a/0\",\"value\":1}]",
+	"P[{\"op\":\"add\",\"path\":\"/a/-\",\"value\":1}]", "P[{\"op\":\"add\",\"path\":\"/b\",\"value\":1}]", "P[{\"op\":\"add\",\"path\":\"/-\",\"value\":1}]"}
+
+func c13ReadTagged(s string) (jd.Diff, error) {
+	switch s[0] {
+	case 'M':
+		return jd.ReadMergeString(s[1:])
+	case 'P':
+		return jd.ReadPatchString(s[1:])
+	}
+	return jd.ReadDiffString(s[1:])
+}
+
 func enumC13(tier string, e *engine.Emitter) {
 	thorough := tier == "thorough"
+	// (vi) failure messages for found values of every rendered length 1..~150, in four embeddings
+	for n := 0; n <= 150; n++ {
+		x := strings.Repeat("x", n)
+		for _, t := range []string{`"` + x + `"`, `{"a":"` + x + `"}`, `["` + x + `"]`, `{"` + x + `":1}`, `[{"id":1,"v":"` + x + `"}]`, `{"a":["` + x + `"]}`} {
+			for _, d := range c13Mismatch {
+				e.Emit(engine.Case{Kind: "c13m", Leg: "message-ladder", A: t, B: d})
+			}
+		}
+	}
+	// (vii) two patches in a row: the second is applied to the live result of the first
+	for _, t := range c13SmallTargets {
+		for _, f := range c13First {
+			for _, s := range c13Second {
+				e.Emit(engine.Case{Kind: "c13s", Leg: "two-steps", A: t, B: f, C: s})
+			}
+		}
+	}
 	// (v) CLI
 	for _, cc := range c13CLICases() {
 		e.Emit(cc)
@@ -452,6 +490,52 @@ func runC13(c *engine.Case) engine.Result {
 				}
 				return jd.ReadMergeString(c.A)
 			}, targets, &res)
+		}
+	case c.Kind == "c13m":
+		res.Bucket = "message-ladder"
+		res.Nontrivial = true
+		out := impl.PatchOutcome{}
+		p := impl.Guard(func() {
+			d, err := jd.ReadDiffString(c.B)
+			if err != nil {
+				fail = "harness: mismatch diff unreadable: " + err.Error()
+				return
+			}
+			out = impl.Patch(c.A, d)
+			res.Transitions++
+		})
+		if p != "" {
+			fail = "Patch crashed: " + p
+		} else if out.Panic != "" {
+			fail = "Patch crashed while reporting a mismatch: " + out.Panic
+		} else if out.OK {
+			res.Bucket = "message-ladder/applied"
+		}
+	case c.Kind == "c13s":
+		res.Bucket = "two-steps/first-rejected"
+		p := impl.Guard(func() {
+			d1, err1 := c13ReadTagged(c.B)
+			d2, err2 := c13ReadTagged(c.C)
+			if err1 != nil || err2 != nil {
+				fail = fmt.Sprintf("harness: step unreadable: %v %v", err1, err2)
+				return
+			}
+			n, err := impl.Read(c.A).Patch(d1)
+			res.Transitions++
+			if err != nil {
+				return
+			}
+			res.Bucket = "two-steps/second-rejected"
+			res.Nontrivial = true
+			n2, err := n.Patch(d2)
+			res.Transitions++
+			if err == nil {
+				res.Bucket = "two-steps/both-applied"
+				_ = n2.Json()
+			}
+		})
+		if p != "" {
+			fail = "the second patch, applied to the live result of the first, crashed: " + p
 		}
 	case c.Kind == "c13l":
 		var err error
